@@ -222,7 +222,8 @@ impl SimClock {
         if !fail {
             if let ClockCmd::Step(d) = &c {
                 // a stepped clock reads differently afterwards
-                k.now = k.now + *d;
+                // and stays inside its own range (the property's timestamp domain [0, 2^63 ns))
+                k.now = (k.now + *d).min(Time::from_nanos((1 << 63) - 1));
             }
         }
         k.log.push((tag, c, !fail));
